@@ -114,6 +114,7 @@ impl std::fmt::Display for Panicked {
 
 thread_local! {
     static LAST_PANIC: RefCell<Option<Panicked>> = const { RefCell::new(None) };
+    static CATCH_DEPTH: std::cell::Cell<u32> = const { std::cell::Cell::new(0) };
 }
 
 /// Installs a quiet panic hook that records message and location.
@@ -130,6 +131,12 @@ pub fn install_panic_hook() {
             .location()
             .map(|l| format!("{}:{}", l.file(), l.line()))
             .unwrap_or_else(|| "<unknown>".into());
+        if std::env::var_os("WACVERIF_BT").is_some() {
+            eprintln!("panic at {location}: {message}\n{}", std::backtrace::Backtrace::force_capture());
+        }
+        if CATCH_DEPTH.with(|d| d.get()) == 0 {
+            eprintln!("harness panic (outside any monitored call) at {location}: {message}");
+        }
         LAST_PANIC.with(|p| *p.borrow_mut() = Some(Panicked { message, location }));
     }));
 }
@@ -137,7 +144,10 @@ pub fn install_panic_hook() {
 /// Runs `f`, turning a panic into `Err(Panicked)`.
 pub fn catch<T>(f: impl FnOnce() -> T) -> Result<T, Panicked> {
     LAST_PANIC.with(|p| *p.borrow_mut() = None);
-    match panic::catch_unwind(AssertUnwindSafe(f)) {
+    CATCH_DEPTH.with(|d| d.set(d.get() + 1));
+    let r = panic::catch_unwind(AssertUnwindSafe(f));
+    CATCH_DEPTH.with(|d| d.set(d.get() - 1));
+    match r {
         Ok(v) => Ok(v),
         Err(_) => Err(LAST_PANIC.with(|p| p.borrow_mut().take()).unwrap_or(Panicked {
             message: "<unknown>".into(),
@@ -169,4 +179,60 @@ pub fn clip(s: &str, n: usize) -> String {
         }
         format!("{}…[{} bytes]", &s[..end], s.len())
     }
+}
+
+/// Normalises an error message into a stable signature fragment: offsets removed, quoted
+/// names and numbers abstracted.
+pub fn normalize_msg(msg: &str) -> String {
+    // drop "(at offset 0x1f)" before abstracting digits
+    let mut cleaned = String::new();
+    let mut rest = msg;
+    while let Some(i) = rest.find("(at offset 0x") {
+        cleaned.push_str(&rest[..i]);
+        match rest[i..].find(')') {
+            Some(j) => rest = &rest[i + j + 1..],
+            None => {
+                rest = "";
+            }
+        }
+    }
+    cleaned.push_str(rest);
+    let msg = cleaned.as_str();
+    let mut s = String::new();
+    let mut chars = msg.chars().peekable();
+    let mut in_tick = false;
+    let mut in_quote = false;
+    while let Some(c) = chars.next() {
+        if c == '`' {
+            in_tick = !in_tick;
+            if !in_tick {
+                s.push('_');
+            }
+            continue;
+        }
+        if c == '"' {
+            in_quote = !in_quote;
+            if !in_quote {
+                s.push('_');
+            }
+            continue;
+        }
+        if in_tick || in_quote {
+            continue;
+        }
+        if c.is_ascii_digit() {
+            if !s.ends_with('N') {
+                s.push('N');
+            }
+            continue;
+        }
+        if c == '\n' {
+            s.push(' ');
+            continue;
+        }
+        s.push(c);
+    }
+    let s = s.replace(" (at offset 0xN)", "").replace("(at offset 0xN)", "");
+    let s = s.split_whitespace().collect::<Vec<_>>().join(" ");
+    clip(&s, 100)
 }
